@@ -94,6 +94,146 @@ pub fn set_focus_site(s: u32) {
     FOCUS_SITE.store(s as usize, Ordering::SeqCst);
 }
 
+// ---------------------------------------------------------------- per-thread gates
+/// A gate freezes the thread that owns it at a chosen point (its n-th instrumented step, or the
+/// n-th hit of one site) until the controller releases it. Several threads can be frozen at
+/// different points at the same time.
+pub struct Gate {
+    pub frozen: AtomicBool,
+    pub frozen_site: AtomicU64,
+    released: Mutex<bool>,
+    cv: Condvar,
+    /// freeze at this step count (u64::MAX = off)
+    at_step: AtomicU64,
+    /// freeze at the nth hit of this site (0 = off)
+    at_site: AtomicU64,
+    at_site_nth: AtomicU64,
+    site_seen: AtomicU64,
+    /// optional filter on the site's first argument (0 = any)
+    at_site_arg: AtomicUsize,
+    pub steps: AtomicU64,
+    pub tid: std::sync::atomic::AtomicI64,
+    /// number of freezes the owner has left
+    thaws: AtomicU64,
+}
+impl Gate {
+    pub fn new() -> std::sync::Arc<Gate> {
+        std::sync::Arc::new(Gate {
+            frozen: AtomicBool::new(false),
+            frozen_site: AtomicU64::new(0),
+            released: Mutex::new(false),
+            cv: Condvar::new(),
+            at_step: AtomicU64::new(u64::MAX),
+            at_site: AtomicU64::new(0),
+            at_site_nth: AtomicU64::new(0),
+            site_seen: AtomicU64::new(0),
+            at_site_arg: AtomicUsize::new(0),
+            steps: AtomicU64::new(0),
+            tid: std::sync::atomic::AtomicI64::new(0),
+            thaws: AtomicU64::new(0),
+        })
+    }
+    pub fn arm_step(&self, step: u64) {
+        *self.released.lock().unwrap() = false;
+        self.at_site.store(0, Ordering::SeqCst);
+        self.at_step.store(step, Ordering::SeqCst);
+    }
+    pub fn arm_site(&self, site: u32, nth: u64) {
+        *self.released.lock().unwrap() = false;
+        self.at_step.store(u64::MAX, Ordering::SeqCst);
+        self.site_seen.store(0, Ordering::SeqCst);
+        self.at_site_nth.store(nth, Ordering::SeqCst);
+        self.at_site_arg.store(0, Ordering::SeqCst);
+        self.at_site.store(site as u64, Ordering::SeqCst);
+    }
+    /// like `arm_site`, but only hits whose first argument equals `arg` count
+    pub fn arm_site_arg(&self, site: u32, arg: usize, nth: u64) {
+        self.arm_site(site, nth);
+        self.at_site_arg.store(arg, Ordering::SeqCst);
+    }
+    pub fn disarm(&self) {
+        self.at_step.store(u64::MAX, Ordering::SeqCst);
+        self.at_site.store(0, Ordering::SeqCst);
+    }
+    pub fn is_frozen(&self) -> bool {
+        self.frozen.load(Ordering::SeqCst)
+    }
+    /// Releases the thread if it is (or later gets) frozen at the currently armed point.
+    pub fn release(&self) {
+        let was_frozen = self.is_frozen();
+        let thaws = self.thaws.load(Ordering::SeqCst);
+        *self.released.lock().unwrap() = true;
+        self.cv.notify_all();
+        if was_frozen {
+            // do not return before the owner has really left the freeze point, so that a
+            // following `wait_frozen` cannot mistake the old freeze for a new one (the owner
+            // may already be frozen again at its next point by the time we look)
+            while self.thaws.load(Ordering::SeqCst) == thaws {
+                std::thread::yield_now();
+            }
+        }
+    }
+    /// Spin until the owner is frozen or `done` returns true; false = neither within the limit.
+    pub fn wait_frozen(&self, done: &dyn Fn() -> bool, limit_ms: u64) -> bool {
+        let t0 = std::time::Instant::now();
+        loop {
+            if self.is_frozen() {
+                return true;
+            }
+            if done() {
+                return false;
+            }
+            if t0.elapsed().as_millis() as u64 > limit_ms {
+                return false;
+            }
+            std::thread::yield_now();
+        }
+    }
+    fn on_site(&self, site: u32, a: usize) {
+        let n = self.steps.fetch_add(1, Ordering::Relaxed) + 1;
+        let mut stop = n == self.at_step.load(Ordering::Relaxed);
+        if !stop {
+            let fs = self.at_site.load(Ordering::Relaxed);
+            if fs != 0 && fs == site as u64 {
+                let want = self.at_site_arg.load(Ordering::Relaxed);
+                if want == 0 || want == a {
+                    let seen = self.site_seen.fetch_add(1, Ordering::SeqCst) + 1;
+                    stop = seen == self.at_site_nth.load(Ordering::SeqCst);
+                }
+            }
+        }
+        if stop {
+            self.at_step.store(u64::MAX, Ordering::SeqCst);
+            self.at_site.store(0, Ordering::SeqCst);
+            self.frozen_site.store(site as u64, Ordering::SeqCst);
+            let mut g = self.released.lock().unwrap();
+            self.frozen.store(true, Ordering::SeqCst);
+            while !*g {
+                g = self.cv.wait(g).unwrap();
+            }
+            *g = false;
+            self.frozen.store(false, Ordering::SeqCst);
+            self.thaws.fetch_add(1, Ordering::SeqCst);
+        }
+    }
+}
+thread_local! {
+    static GATE: std::cell::RefCell<Option<std::sync::Arc<Gate>>> = const { std::cell::RefCell::new(None) };
+}
+/// The calling thread becomes a suspendee controlled by `gate`.
+pub fn attach_gate(gate: std::sync::Arc<Gate>, tid: u16) {
+    #[cfg(not(miri))]
+    gate.tid.store(unsafe { libc::syscall(libc::SYS_gettid) } as i64, Ordering::SeqCst);
+    GATE.with(|g| *g.borrow_mut() = Some(gate));
+    set_role(ROLE_GATED, tid, tid as u64 + 1);
+}
+pub fn detach_gate() {
+    GATE.with(|g| *g.borrow_mut() = None);
+    set_role(ROLE_NONE, 0, 0);
+}
+/// a thread whose steps are controlled by its own `Gate`
+pub const ROLE_GATED: u8 = 6;
+
 // ---------------------------------------------------------------- suspend engine state
 pub struct Suspend {
     pub freeze_at: AtomicU64,
@@ -204,6 +344,12 @@ fn hook(site: u32, a: usize, b: usize) {
             STEPS.with(|s| s.set(s.get() + 1));
             if is_lock_site(site) {
                 LOCK_SITES.with(|s| s.set(s.get() + 1));
+            }
+        }
+        ROLE_GATED => {
+            let g = GATE.try_with(|g| g.borrow().clone()).ok().flatten();
+            if let Some(g) = g {
+                g.on_site(site, a);
             }
         }
         ROLE_SERIAL => crate::serial::on_site(site, a, b),
